@@ -118,6 +118,76 @@ PROBE_H5_COPY_ABS_DEST_COLLISION = True
 PROBE_COPY_INTO_ROOT_GROUP_OBJECT = True
 IH5 = ("ih5", "mf")
 
+# Typed values of datasets and attributes: numpy scalars whose stored representation is ONE or TWO bytes around the byte
+# 0x7f of the IH5 deletion marker np.void(b"\x7f") (int8 / uint8 126, 127, 128; the 1-character byte strings ~, DEL, \x80;
+# booleans; the marker's byte inside wider values), plus opaque values next to the marker. The marker itself is excluded
+# (IH5 refuses it by design: C17). A token is `<K>.<dtype>.<value>`: N = integer / boolean numpy scalar, S = np.bytes_
+# (fixed-length string S<n>), V = np.void, A = 1-d array. As dataset value (`["ds", path, token]`) the model sees the token
+# as the opaque content of the dataset; as attribute value (`["sattr", path, key, token]`) it is lock-step only.
+TYPED_NEAR = ["N.int8.127", "N.uint8.127", "S.7f", "N.int8.126", "N.uint8.126", "N.uint8.128", "N.int8.-128", "S.7e", "S.80"]
+TYPED_MORE = ["N.bool.1", "N.bool.0", "N.uint8.255", "N.int16.127", "N.uint16.32639", "N.int64.127", "S.7f7f", "S.417f", "V.7e", "V.80",
+              "V.7f7f", "V.007f", "A.uint8.127", "A.int8.127,127"]
+TYPED = TYPED_NEAR + TYPED_MORE
+DS_HOWS = ("create_dataset", "create_dataset_dtype", "require")  # besides the plain `g[p] = v`
+
+
+def is_typed(tok):
+    return isinstance(tok, str) and len(tok) > 2 and tok[1] == "." and tok[0] in "NSVA"
+
+
+def typed_value(tok):
+    """the numpy value a token stands for"""
+    import numpy as np
+
+    k, _, r = tok.partition(".")
+    if k == "S":
+        return np.bytes_(bytes.fromhex(r))
+    if k == "V":
+        return np.void(bytes.fromhex(r))
+    dt, _, v = r.partition(".")
+    if k == "A":
+        return np.array([int(x) for x in v.split(",")], dtype=dt)
+    return np.dtype(dt).type(int(v))
+
+
+def typed_plain(tok):
+    """(python value, dtype) for `create_dataset(name, data=<python value>, dtype=<dtype>)`; None: no such form"""
+    k, _, r = tok.partition(".")
+    if k == "S":
+        b = bytes.fromhex(r)
+        return b, "S%d" % len(b)
+    if k == "N":
+        dt, _, v = r.partition(".")
+        return (bool(int(v)) if dt == "bool" else int(v)), dt
+    return None
+
+
+def enc9(v):
+    """canonical string of a value read from a dataset / attribute, WITH its type (the type of a stored value is
+    user-visible data); numpy scalars come out as their token"""
+    import numpy as np
+
+    if isinstance(v, np.void):
+        return "V." + v.tobytes().hex()
+    if isinstance(v, np.bytes_):
+        return "S." + bytes(v).hex()
+    if isinstance(v, (np.bool_, np.integer)):
+        return "N.%s.%d" % (v.dtype.name, int(v))
+    if isinstance(v, np.ndarray) and v.dtype.kind in "iub":
+        return "A.%s.%s%s" % (v.dtype.name, ",".join(str(int(x)) for x in v.reshape(-1)), "" if v.ndim == 1 else ":" + "x".join(map(str, v.shape)))
+    from .h5util import enc_val
+
+    return enc_val(v)
+
+
+def dec9(s):
+    """value to store for a tagged string of `ctr_common.ATTR_VALS` or a typed token"""
+    if is_typed(s):
+        return typed_value(s)
+    from .h5util import dec_val
+
+    return dec_val(s)
+
 
 # --------------------------------------------------------------------------- case structure
 def expand(case, var):
@@ -227,29 +297,42 @@ class _Run9(C._Run):
         self.copied = {}
 
     # ------------------------------------------------------------------ user-visible view (public API only)
-    def user_view(self):
-        from .h5util import enc_val
-
+    def user_view(self, queries=True):
         mc = self.mc
+        raw = self.raw()
+
+        def tryf(f):
+            try:
+                return f()
+            except Exception as e:  # noqa: BLE001
+                return "err:" + type(e).__name__
 
         def attrs(n):
             try:
                 a = n.attrs
-                return {k: enc_val(a[k]) for k in sorted(a.keys())}
+                return {k: enc9(a[k]) for k in sorted(a.keys())}, tryf(lambda: len(a))
             except Exception as e:  # noqa: BLE001
-                return {"!": "err:" + type(e).__name__}
+                return {"!": "err:" + type(e).__name__}, None
 
         def meta(n):
             try:
                 m = n.meta
-                return {name: _canon_json(m.get(name)) for name in sorted(m.keys())}
+                return {name: _canon_json(m.get(name)) for name in sorted(m.keys())}, tryf(lambda: len(m))
             except Exception as e:  # noqa: BLE001
-                return {"!": "err:" + type(e).__name__}
+                return {"!": "err:" + type(e).__name__}, None
 
         root = mc["/"]
         data = {"/": "g"}
-        at = {"/": attrs(root)}
-        md = {"/": meta(root)}
+        at, md, lens = {}, {}, {}
+
+        # sizes as the dict-like interface reports them: len() of the attribute manager and of the metadata
+        # interface of every node, len() of every group (through the wrapper and of the driver's own group object)
+        def node_view(p, node):
+            at[p], la = attrs(node)
+            md[p], lm = meta(node)
+            lens[p] = dict(attrs=la, meta=lm)
+
+        node_view("/", root)
 
         def visit(name, node):
             p = "/" + name.strip("/")
@@ -257,21 +340,73 @@ class _Run9(C._Run):
                 data[p] = "g"
             else:
                 try:
-                    data[p] = "d:" + enc_val(node[()])
+                    data[p] = "d:" + enc9(node[()])
                 except Exception as e:  # noqa: BLE001
                     data[p] = "d:err:" + type(e).__name__
-            at[p] = attrs(node)
-            md[p] = meta(node)
+            node_view(p, node)
 
         mc.visititems(visit)
         listing = {}
         for p, k in data.items():
             if k == "g":
                 try:
-                    listing[p] = sorted(mc[p].keys())
+                    g = mc[p]
+                    ks = sorted(g.keys())
+                    listing[p] = ks
+                    lens[p].update(group=len(g), driver=tryf(lambda: len(raw[p])))
                 except Exception as e:  # noqa: BLE001
                     listing[p] = "err:" + type(e).__name__
-        return dict(data=data, attrs=at, meta=md, listing=listing)
+        return dict(data=data, attrs=at, meta=md, listing=listing, lens=lens, toc=self.toc_view(queries))
+
+    def toc_view(self, queries=True):
+        """container-level listings of the public `mc.metador` interface: schemas in use, the packages providing
+        them, their sizes, and for every listed schema the nodes a container-wide query for it returns"""
+        def tryf(f):
+            try:
+                return f()
+            except Exception as e:  # noqa: BLE001
+                return "err:" + type(e).__name__
+
+        S = self.mc.metador.schemas
+        o = {}
+        o["schemas"] = tryf(lambda: sorted(C.ep(r.name, r.version) for r in S.keys()))
+        o["schemas-len"] = tryf(lambda: len(S))
+        o["packages"] = tryf(lambda: sorted("%s:%s" % (C.ep(str(k[0]), k[1]), ",".join(sorted(C.ep(r.name, r.version) for r in v.plugins.get("schema", []))))
+                                            for k, v in S.packages.items()))
+        o["packages-len"] = tryf(lambda: len(S.packages))
+        if queries and isinstance(o["schemas"], list):
+            refs = tryf(lambda: sorted(S.keys(), key=lambda r: (r.name, tuple(r.version))))
+            if isinstance(refs, list):
+                o["query"] = {C.ep(r.name, r.version): tryf(lambda r=r: sorted(n.name for n in self.mc.metador.query(r.name, tuple(r.version)))) for r in refs}
+        return o
+
+    def raw_entries(self):
+        """as `ctr_common._Run.raw_entries`; values that are no strings are remembered as their typed token"""
+        out = []
+        self.typed = {}
+
+        def v(name, node):
+            p = "/" + name
+            if self.is_ds(node):
+                val = node[()]
+                if not isinstance(val, (bytes, str)) or hasattr(val, "dtype"):
+                    self.typed[p] = enc9(val)
+                if hasattr(val, "tobytes") and not isinstance(val, (bytes, str)):
+                    val = val.tobytes()
+                if isinstance(val, str):
+                    val = val.encode()
+                out.append((p, "d", bytes(val)))
+            else:
+                out.append((p, "g", None))
+
+        self.raw().visititems(v)
+        out.sort(key=lambda e: e[0].split("/"))
+        return out
+
+    def dump(self, entries):
+        res = super().dump(entries)
+        typed = getattr(self, "typed", {})
+        return [[p, "d:" + typed[p]] if c.startswith("d:") and p in typed else [p, c] for p, c in res]
 
     def light_objs(self, entries):
         objs = {}
@@ -356,7 +491,7 @@ class _Run9(C._Run):
         bi = self.seq[k][1] if k < len(self.seq) else None
         call = call_of(self.c9, bi)
         o = op[0]
-        if o not in SHAPED_OPS or (not call and o not in PROBE_OPS):
+        if o not in SHAPED_OPS or (not call and o not in PROBE_OPS + ("ds", "sattr")):
             return super().do_op(op, k)
         call = call or {}
         g, at = self.wrapper(call)
@@ -373,7 +508,20 @@ class _Run9(C._Run):
             return T(self.status(lambda: (g.require_group if how == "require" else g.create_group)(name)))
         if o == "ds":
             name = A(0, op[1])
-            if how == "create_dataset":
+            if is_typed(op[2]):
+                val, pl = typed_value(op[2]), typed_plain(op[2])
+                self.tags.add("typed-dataset-value")
+                if op[2] in TYPED_NEAR[:3]:
+                    self.tags.add("dataset-value-stored-as-the-single-byte-0x7f")
+                if how == "create_dataset":
+                    return T(self.status(lambda: g.create_dataset(name, data=val)))
+                if how == "create_dataset_dtype" and pl:
+                    self.tags.add("typed-dataset-value-via-create_dataset-dtype")
+                    return T(self.status(lambda: g.create_dataset(name, data=pl[0], dtype=pl[1])))
+                if how == "require" and pl:
+                    return T(self.status(lambda: g.require_dataset(name, shape=(), dtype=pl[1], data=pl[0])))
+                return T(self.status(lambda: g.__setitem__(name, val)))
+            if how in ("create_dataset", "create_dataset_dtype"):
                 return T(self.status(lambda: g.create_dataset(name, data=op[2])))
             if how == "require":
                 return T(self.status(lambda: g.require_dataset(name, shape=(), dtype=self.h5py.string_dtype(), data=op[2])))
@@ -425,9 +573,11 @@ class _Run9(C._Run):
             subs = op[2] if o == "mseq" else [["set"] + op[2:]] if o == "mset" else [["del", op[2]]]
             return "+".join(self.meta_sub(m, node, s_, k) for s_ in subs)
         if o == "sattr":
-            from .h5util import dec_val
-
-            return T(self.status(lambda: lookup(op[1]).attrs.__setitem__(op[2], dec_val(op[3]))))
+            if is_typed(op[3]):
+                self.tags.add("typed-attribute-value")
+                if op[3] in TYPED_NEAR[:3]:
+                    self.tags.add("attribute-value-stored-as-the-single-byte-0x7f")
+            return T(self.status(lambda: lookup(op[1]).attrs.__setitem__(op[2], dec9(op[3]))))
         if o == "dattr":
             return T(self.status(lambda: lookup(op[1]).attrs.__delitem__(op[2])))
         if o == "has":
@@ -501,6 +651,8 @@ class _Run9(C._Run):
             self.born[p] = c
         elif o == "del" and st == "ok":
             p = op[1]
+            if c > 0 and self.born_of(p) == c and self.born_of(p.rsplit("/", 1)[0] or "/") == c and p.count("/") > 1:
+                T("child-created-and-deleted-within-one-later-container-group-from-it-too")
             if self.born_of(p) < c:
                 T("delete-of-node-from-older-container")
                 if any(h == p or h.startswith(p.rstrip("/") + "/") for h in att_before):
@@ -532,6 +684,10 @@ class _Run9(C._Run):
             b = self.meta_born.pop((op[1], op[2]), None)
             if (b is not None and b < c) or (b is None and self.born_of(op[1]) < c):
                 T("metadata-deleted-across-boundary")
+            if b is not None and b == c and c > 0:
+                T("metadata-attached-and-removed-within-one-later-container")
+                if not any(q[1] == op[2] for q in self.meta_born):
+                    T("last-object-of-schema-attached-and-removed-within-one-later-container")
         elif o == "sattr" and st == "ok":
             key = (op[1], op[2])
             if key in self.attr_born and self.attr_born[key] < c:
@@ -570,7 +726,7 @@ class _Run9(C._Run):
             if op[0] not in NOMODEL_OPS:
                 self.out += [st, json.dumps(self.dump(entries), separators=(",", ":")), "{}", "|".join(obs)]
             if bi is not None:
-                v = self.user_view()
+                v = self.user_view(queries=op[0] in ("mset", "mdel", "mseq", "copy", "move", "del"))
                 v["status"] = _coarse(st)
                 v["obs"] = self.user_obs(items, obs, att)
                 self.steps.append(v)
@@ -596,8 +752,9 @@ def _first_diff(a, b):
     """(kind, detail) of the first difference between two user-visible observations"""
     if a["status"] != b["status"]:
         return "outcome-differs", dict(reference=a["status"], got=b["status"])
-    for field, kind in (("data", "data-differs"), ("listing", "data-differs"), ("attrs", "attributes-differ"), ("meta", "metadata-objects-differ")):
-        if a[field] != b[field]:
+    for field, kind in (("data", "data-differs"), ("listing", "data-differs"), ("attrs", "attributes-differ"), ("meta", "metadata-objects-differ"),
+                        ("lens", "sizes-differ"), ("toc", "toc-listings-differ")):
+        if a.get(field) != b.get(field):
             x, y = a[field], b[field]
             ks = sorted(k for k in set(x) | set(y) if x.get(k) != y.get(k))[:3]
             return kind, dict(field=field, reference={k: x.get(k) for k in ks}, got={k: y.get(k) for k in ks})
@@ -831,6 +988,76 @@ def shape_history(rng, base, obs, p_shape=0.6, p_probe=0.16):
     return B, O, Cl
 
 
+def pick_typed(rng, p_near=0.65):
+    return rng.choice(TYPED_NEAR) if rng.random() < p_near else rng.choice(TYPED_MORE)
+
+
+def add_typed_datasets(rng, base, obs):
+    """a few more datasets with typed values at random positions of the history, under the root or under a path that an
+    earlier op names (names v0, v1 ...: no op of the history refers to them, but copy / move / delete of the group above
+    carries them along)"""
+    k = 0
+    for _ in range(rng.choice([1, 2, 2, 3])):
+        pos = rng.randrange(0, len(base) + 1)
+        par = [""] + [p for op in base[:pos] if op[0] in ("grp", "copy", "move") for p in op_paths(op)[-1:] if p != "/"]
+        base.insert(pos, ["ds", rng.choice(par) + "/v%d" % k, pick_typed(rng)])
+        obs.insert(pos, [])
+        k += 1
+
+
+def add_transients(rng, base, obs, insts):
+    """things that come and go again within one or two ops, at a random position of the history (so that, in the variants,
+    a container boundary or reopen point lies before them but not between them): the FIRST object of a schema that no other
+    op of the history uses is attached and removed again; a child (in a new or an existing group) is created and deleted"""
+    for j in range(rng.choice([1, 1, 2])):
+        pos = rng.randrange(min(1, len(base)), len(base) + 1)
+        made = [p for op in base[:pos] if op[0] in ("grp", "ds", "copy", "move") for p in op_paths(op)[-1:] if p != "/"]
+        grps = [p for op in base[:pos] if op[0] == "grp" for p in op_paths(op) if p != "/"]
+        if rng.random() < 0.55:
+            used = set(op[2] for op in base if op[0] in ("mset", "mdel")) | set(x[1] for op in base if op[0] == "mseq" for x in op[2])
+            free = [n for n in C.ATTACHABLE if n not in used] or C.ATTACHABLE
+            name = rng.choice(free)
+            node = rng.choice(made) if made and rng.random() < 0.8 else "/"
+            k = len(insts)
+            insts.append([name, None, C.make_instance_dict(name, k)])
+            new = [["mset", node, name, None, k], ["mdel", node, name]]
+        else:
+            g = rng.choice(grps) if grps and rng.random() < 0.7 else ""
+            r = rng.random()
+            if r < 0.5:
+                new = [["grp", "%s/w%d" % (g, j)], ["ds", "%s/w%d/x" % (g, j), "t"], ["del", "%s/w%d/x" % (g, j)]]
+            elif r < 0.8 and g:
+                new = [["ds", "%s/w%d" % (g, j), "t"], ["del", "%s/w%d" % (g, j)]]
+            else:
+                new = [["grp", "%s/w%d/y" % (g, j)], ["del", "%s/w%d/y" % (g, j)]]
+        gap = rng.random() < 0.25
+        for i, op in enumerate(new):
+            at = min(pos + i + (1 if gap and i == len(new) - 1 else 0), len(base))
+            base.insert(at, op)
+            obs.insert(at, [])
+
+
+def type_values(rng, case, p_ds=0.5, p_attr=0.5):
+    """typed values for datasets and attributes of a shaped history: numpy scalars given as `g[p] = v` /
+    `create_dataset(p, data=v)` / `create_dataset(p, data=<python value>, dtype=...)`. `require_dataset` is not used in
+    such a history (the model's `rds` is "an existing dataset, else create": only right when shape and dtype fit)."""
+    base = case["base"]
+    call = case.get("call") or [None] * len(base)
+    for i, op in enumerate(base):
+        cl = call[i]
+        if op[0] == "ds":
+            if cl and cl.get("how") == "require":
+                cl["how"] = "create_dataset"
+            if not is_typed(op[2]) and rng.random() < p_ds:
+                op[2] = pick_typed(rng)
+            if is_typed(op[2]) and rng.random() < 0.4 and typed_plain(op[2]):
+                call[i] = dict(cl or dict(at="/", rel=[False]), how="create_dataset_dtype")
+        elif op[0] == "sattr" and rng.random() < p_attr:
+            op[3] = pick_typed(rng)
+    case["call"] = call
+    case["typed"] = True
+
+
 def gen_case(rng, quick=True, n_ops=None, shapes=True):
     insts, obs = [], []
     sh = C.Shadow()
@@ -843,9 +1070,16 @@ def gen_case(rng, quick=True, n_ops=None, shapes=True):
     if base:
         obs[-1] = C.gen_obs(rng, sh, 3 if quick else 6)  # gen_history put its final probe set here
     final = C.gen_obs(rng, sh, 16 if quick else 40)
+    typed = shapes and rng.random() < 0.5
+    if typed:
+        add_typed_datasets(rng, base, obs)
+    if shapes and rng.random() < 0.5:
+        add_transients(rng, base, obs, insts)
     case = dict(base=base, obs=obs, final=final, insts=insts)
     if shapes:
         case["base"], case["obs"], case["call"] = shape_history(rng, base, obs)
+    if typed:
+        type_values(rng, case)
     case["variants"] = gen_variants(rng, case["base"], quick)
     return case
 
@@ -857,7 +1091,9 @@ def gen_attr_case(rng, quick=True):
     a container boundary at EVERY single position of the history (one variant each), after every
     op, and random subsets (thorough: all pairs of positions as well)."""
     G = _Groups()
-    base = [["ds", "/d", "t0"]]
+    typed = rng.random() < 0.6
+    vals = C.ATTR_VALS + (TYPED_NEAR * 2 + TYPED_MORE if typed else [])
+    base = [["ds", "/d", pick_typed(rng) if typed and rng.random() < 0.5 else "t0"]]
     kind = {"/": "g", "/d": "d"}
     if rng.random() < 0.8:
         base.append(["grp", "/g"])
@@ -911,11 +1147,11 @@ def gen_attr_case(rng, quick=True):
                 base.append(["dattr", n, k])
                 present.pop((n, k))
             else:
-                v = rng.choice([x for x in C.ATTR_VALS if x != present[(n, k)]])
+                v = rng.choice([x for x in vals if x != present[(n, k)]])
                 base.append(["sattr", n, k, v])
                 present[(n, k)] = v
         elif r < 0.72:
-            v = rng.choice(C.ATTR_VALS)
+            v = rng.choice(vals)
             base.append(["sattr", n, k, v])
             present[(n, k)] = v
         else:
